@@ -146,6 +146,32 @@ Theorem C13_extrude_sections dim rat (amount : list R) (prof : list (list R)) (N
 Proof. intros HN. exact (extrude_is_translation dim rat amount prof N v HN c). Qed.
 Print Assumptions C13_extrude_sections.
 
+(* 9. ellipse = circle scaled by (r1, r2) (curve_factory.ellipse multiplies the circle net by [r1, r2, 1]; scaling
+      commutes with evaluation by C09): a point of the unit circle lands on the ellipse with semi-axes r1, r2 *)
+Theorem C13_ellipse_from_circle r1 r2 x y : r1 <> 0 -> r2 <> 0 -> x * x + y * y = 1 ->
+  (r1 * x) * (r1 * x) / (r1 * r1) + (r2 * y) * (r2 * y) / (r2 * r2) = 1.
+Proof. intros H1 H2 E. replace 1 with (x * x + y * y) by exact E. field. split; assumption. Qed.
+Print Assumptions C13_ellipse_from_circle.
+
+(* 10. n_gon / polygons / lines (order 2): on the knot span m exactly two basis functions are non-zero, they are
+       (1 - lambda, lambda) with lambda in [0, 1]: every evaluated point lies on the segment between two consecutive
+       control points; the vertices (r cos, r sin) of n_gon lie on the circle of radius r *)
+Theorem C13_linear_span_is_segment side (k : nat -> R) (c : nat -> R) m t : sorted k -> (1 <= m)%nat ->
+  in_span side (k m) (k (S m)) t ->
+  let lam := w (k m) (k (m + 1)%nat) t in
+  sumf (fun i => c i * B side k 1 i t) (m - 1) 2 = (1 - lam) * c (m - 1)%nat + lam * c m /\ 0 <= lam <= 1.
+Proof.
+  intros Hk Hm Hs. cbv zeta. split.
+  - rewrite (deboor_step side k Hk 0 c m t Hm Hs). replace (m - 0)%nat with m by lia. cbn [sumf].
+    rewrite (B0_span side k Hk m t Hs m), Nat.eqb_refl. replace (m + 0 + 1)%nat with (m + 1)%nat by lia. ring.
+  - apply w_range. replace (m + 1)%nat with (S m) by lia. unfold in_span in Hs. destruct side; lra.
+Qed.
+Print Assumptions C13_linear_span_is_segment.
+
+Theorem C13_ngon_vertex_on_circle r cs sn : cs * cs + sn * sn = 1 -> (r * cs) * (r * cs) + (r * sn) * (r * sn) = r * r.
+Proof. intros E. replace ((r * cs) * (r * cs) + (r * sn) * (r * sn)) with (r * r * (cs * cs + sn * sn)) by ring. rewrite E. ring. Qed.
+Print Assumptions C13_ngon_vertex_on_circle.
+
 (* non-vacuity: the regenerated nets on a Pythagorean stand-in, the revolve net of a two-point profile *)
 Example C13_example :
   length (q_circle_net_p2C0 (7#5)) = 8%nat /\ length (q_circle_net_p4C1 (7#5)) = 12%nat /\
